@@ -216,7 +216,9 @@ func (m *RuleManager) adjustRule(r *Rule, groupID string) (err error) {
 func (m *RuleManager) GetRule(group, id string) *Rule {
 	m.RLock()
 	defer m.RUnlock()
-	return m.ruleConfig.getRule([2]string{group, id})
+	// Return a copy: callers modify the result and pass it to SetRule, which must still see the
+	// served rule unchanged in order to detect (and persist) the difference.
+	return m.ruleConfig.getRule([2]string{group, id}).Clone()
 }
 
 // SetRule inserts or updates a Rule.
